@@ -666,7 +666,22 @@ def run(ctx, repo, tier):
                         row_only = not isinstance(sl, ast.Tuple)
                         if row_only:
                             wrong = n
-            if wrong is not None:
+            layout_guess = None
+            if helper is not None:
+                for n in ast.walk(helper.node):
+                    if isinstance(n, ast.If) and not n.orelse:
+                        t_ = src(n.test).replace(" ", "")
+                        transposes = any(isinstance(a_, ast.Assign) and ((isinstance(a_.value, ast.Attribute) and a_.value.attr == "T") or
+                                                                         (isinstance(a_.value, ast.Call) and src(a_.value.func).split(".")[-1] in ("transpose", "swapaxes")))
+                                         for b_ in n.body for a_ in ast.walk(b_))
+                        if transposes and ("shape[0]==7" in t_ or "len(" in t_ and "==7" in t_) and "shape[1]" not in t_:
+                            layout_guess = n
+            if layout_guess is not None:
+                ctx.violate("OWN", "C10.grid.stored", "the constructor guesses the layout of the grid from its FIRST dimension alone: an array with exactly "
+                            "seven rows (a valid (7, 7) list of seven SE(3) coordinates) is taken for the column-wise layout and transposed, so "
+                            "frame k is built from column k of the caller's array instead of row k", helper.where, "if " + src(layout_guess.test)[:80],
+                            witness="7 rows x 7 columns: rows and columns are exchanged silently")
+            elif wrong is not None:
                 ctx.violate("OWN", "C10.grid.stored", "the constructor rewrites whole ROWS of the grid (all seven columns) before they drive the "
                             "frames: the position part (x, y, z) of the selected rows is changed together with the quaternion, so frame k is not "
                             "placed at row k's position", helper.where, norm_stmt(wrong), witness=f"self.full_grid = {src(gv)[:100]}")
